@@ -58,6 +58,14 @@ def simplify_atoms(atoms):
         if a[0] == "cmp" and a[1] == "ule" and T.is_k(a[3]) and mults.get(a[4]) == a[3][2]:
             a = T.cmp("ne", a[2], a[4], T.K(a[2], 0))
         res2.add(a)
+    # `x % c != 0` already says `x != 0`
+    nonmult = set()
+    for a in res2:
+        if a[0] == "cmp" and a[1] == "ne":
+            for p, q in ((a[3], a[4]), (a[4], a[3])):
+                if p == T.K(a[2], 0) and isinstance(q, tuple) and q[0] == "op" and q[1] == "urem" and T.is_k(q[4]):
+                    nonmult.add(q[3])
+    res2 = {a for a in res2 if not (a[0] == "cmp" and a[1] == "ne" and ((a[3] in nonmult and a[4] == T.K(a[2], 0)) or (a[4] in nonmult and a[3] == T.K(a[2], 0))))}
     return frozenset(res2)
 
 
